@@ -70,10 +70,7 @@ package leanhelix
 
 // building the term for the new height: committee request (polling loop), message factory, TermInCommittee, filters.
 // Trusted here (its pieces are verified in their packages); it does not move the height.
-//@ dep leanhelixterm.NewLeanHelixTerm
-//@   params ctx log config st electionTrigger onCommit prevBlock prevBlockProofBytes canBeFirstLeader
-//@   modifies state.State.view, M:S_state_HeightView:Int
-//@   ensures result != nil && TermHeightOf(result) == st.height
+// leanhelixterm.NewLeanHelixTerm: verified in its own package (its contract is used here)
 
 // (*leanhelixterm.LeanHelixTerm).Dispose: verified in its own package (disposes the protocol logic, which stops the election timer)
 
@@ -84,13 +81,18 @@ package leanhelix
 
 // the filter replays cached messages into the new term; a replayed message may commit the new height, which re-enters
 // onNewConsensusRound (nested round: height, callbacks and term move on)
+// what building the term of a new height may write besides the state: the default storage, the new term's own fields and
+// the ghost log of that new term
+//@ modset NEWTERM = interfaces.Config.Storage, termincommittee.TermInCommittee.preparedLocally, ghost:lastVC, ghost:ncommitted, ghost:ppStored, ghost:ppHash, ghost:sentPrepare, ghost:sentPrepareHash, ghost:sentCommit, ghost:sentCommitHash, ghost:proposed, ghost:lastCtxErrNil
 //@ func (*WorkerLoop).onNewConsensusRound
 //@   inv [O17.the-installed-term-is-the-term-of-the-current-height] (lh.filter.consensusMessagesHandler != nil ==> TermHeightOf(dyn(lh.filter.consensusMessagesHandler, *leanhelixterm.LeanHelixTerm)) == lh.state.height)
 //@   props C13 C14 C17
 //@   requires lh.state != nil && lh.filter != nil && lh.filter.state == lh.state && lh.filter.futureCache != nil && lh.state.Contexts != nil
+//@   requires [A-NONNIL.the-configured-spi-objects-are-present] lh.config != nil && lh.config.KeyManager != nil && lh.config.BlockUtils != nil && lh.config.Membership != nil && lh.electionTrigger != nil
+//@   requires [A-KM-SIGN] SignsAs(lh.config.KeyManager, lh.config.Membership.MyMemberId())
 //@   requires lastRoundHeight <= lh.state.height && lastCommitHeight <= lh.state.height && ndelivered >= 0
 //@   inv [filter.cache] forall k int, i int :: has(lh.filter.futureCache, k) && 0 <= i && i < len(lh.filter.futureCache[k]) ==> lh.filter.futureCache[k][i].BlockHeight() == k && lh.filter.futureCache[k][i].InstanceId() == lh.filter.instanceId && lh.filter.futureCache[k][i].SenderMemberId() != lh.filter.myMemberId
-//@   modifies state.State.height, state.State.view, leanhelix.WorkerLoop.leanHelixTerm, M:S_state_HeightView:Int, ghost:lastRoundHeight, ghost:lastCommitHeight, rawmessagesfilter.RawMessageFilter.consensusMessagesHandler, rawmessagesfilter.RawMessageFilter.latestFutureBlockHeight, M:Int:Slice_Iface, ghost:ndelivered, ghost:delivered, leanhelixterm.LeanHelixTerm.termInCommittee, ghost:schedStopped
+//@   modifies state.State.height, state.State.view, leanhelix.WorkerLoop.leanHelixTerm, M:S_state_HeightView:Int, ghost:lastRoundHeight, ghost:lastCommitHeight, rawmessagesfilter.RawMessageFilter.consensusMessagesHandler, rawmessagesfilter.RawMessageFilter.latestFutureBlockHeight, M:Int:Slice_Iface, ghost:ndelivered, ghost:delivered, leanhelixterm.LeanHelixTerm.termInCommittee, ghost:schedStopped, @NEWTERM
 //@   ensures [O13.state-moves-forward] lh.state.height >= old(lh.state.height)
 //@   ensures [O13.5.rounds-stay-below-state] lastRoundHeight <= lh.state.height && lastRoundHeight >= old(lastRoundHeight)
 //@   ensures [O14.4.the-node-ends-above-the-previous-block-unless-shut-down-or-overtaken] blockheight.GetBlockHeight(prevBlock) < 18446744073709551615 && !old(lh.state.Contexts.shutdown)
@@ -103,10 +105,12 @@ package leanhelix
 //@   inv [O17.the-installed-term-is-the-term-of-the-current-height] (lh.filter.consensusMessagesHandler != nil ==> TermHeightOf(dyn(lh.filter.consensusMessagesHandler, *leanhelixterm.LeanHelixTerm)) == lh.state.height)
 //@   props C13 C03
 //@   requires lh.state != nil && lh.filter != nil && lh.filter.state == lh.state && lh.filter.futureCache != nil && lh.state.Contexts != nil
+//@   requires [A-NONNIL.the-configured-spi-objects-are-present] lh.config != nil && lh.config.KeyManager != nil && lh.config.BlockUtils != nil && lh.config.Membership != nil && lh.electionTrigger != nil
+//@   requires [A-KM-SIGN] SignsAs(lh.config.KeyManager, lh.config.Membership.MyMemberId())
 //@   requires lastRoundHeight <= lh.state.height && ndelivered >= 0
 //@   inv [filter.cache] forall k int, i int :: has(lh.filter.futureCache, k) && 0 <= i && i < len(lh.filter.futureCache[k]) ==> lh.filter.futureCache[k][i].BlockHeight() == k && lh.filter.futureCache[k][i].InstanceId() == lh.filter.instanceId && lh.filter.futureCache[k][i].SenderMemberId() != lh.filter.myMemberId
 //@   requires [O13.6.commit-for-the-current-height-only-once] block != nil && block.Height() == lh.state.height && lastCommitHeight < block.Height()
-//@   modifies state.State.height, state.State.view, leanhelix.WorkerLoop.leanHelixTerm, M:S_state_HeightView:Int, ghost:lastRoundHeight, ghost:lastCommitHeight, rawmessagesfilter.RawMessageFilter.consensusMessagesHandler, rawmessagesfilter.RawMessageFilter.latestFutureBlockHeight, M:Int:Slice_Iface, ghost:ndelivered, ghost:delivered, leanhelixterm.LeanHelixTerm.termInCommittee, ghost:schedStopped
+//@   modifies state.State.height, state.State.view, leanhelix.WorkerLoop.leanHelixTerm, M:S_state_HeightView:Int, ghost:lastRoundHeight, ghost:lastCommitHeight, rawmessagesfilter.RawMessageFilter.consensusMessagesHandler, rawmessagesfilter.RawMessageFilter.latestFutureBlockHeight, M:Int:Slice_Iface, ghost:ndelivered, ghost:delivered, leanhelixterm.LeanHelixTerm.termInCommittee, ghost:schedStopped, @NEWTERM
 //@   ensures [O13.6.recorded] lastCommitHeight >= old(block.Height()) && lastCommitHeight <= lh.state.height
 //@   ensures [O13.state-moves-forward] lh.state.height >= old(lh.state.height)
 
@@ -115,9 +119,11 @@ package leanhelix
 //@   props C14 C13
 //@   requires receivedBlockWithProof != nil
 //@   requires lh.state != nil && lh.filter != nil && lh.filter.state == lh.state && lh.filter.futureCache != nil && lh.state.Contexts != nil
+//@   requires [A-NONNIL.the-configured-spi-objects-are-present] lh.config != nil && lh.config.KeyManager != nil && lh.config.BlockUtils != nil && lh.config.Membership != nil && lh.electionTrigger != nil
+//@   requires [A-KM-SIGN] SignsAs(lh.config.KeyManager, lh.config.Membership.MyMemberId())
 //@   requires lastRoundHeight <= lh.state.height && lastCommitHeight <= lh.state.height && ndelivered >= 0
 //@   inv [filter.cache] forall k int, i int :: has(lh.filter.futureCache, k) && 0 <= i && i < len(lh.filter.futureCache[k]) ==> lh.filter.futureCache[k][i].BlockHeight() == k && lh.filter.futureCache[k][i].InstanceId() == lh.filter.instanceId && lh.filter.futureCache[k][i].SenderMemberId() != lh.filter.myMemberId
-//@   modifies state.State.height, state.State.view, leanhelix.WorkerLoop.leanHelixTerm, M:S_state_HeightView:Int, ghost:lastRoundHeight, ghost:lastCommitHeight, rawmessagesfilter.RawMessageFilter.consensusMessagesHandler, rawmessagesfilter.RawMessageFilter.latestFutureBlockHeight, M:Int:Slice_Iface, ghost:ndelivered, ghost:delivered, leanhelixterm.LeanHelixTerm.termInCommittee, ghost:schedStopped
+//@   modifies state.State.height, state.State.view, leanhelix.WorkerLoop.leanHelixTerm, M:S_state_HeightView:Int, ghost:lastRoundHeight, ghost:lastCommitHeight, rawmessagesfilter.RawMessageFilter.consensusMessagesHandler, rawmessagesfilter.RawMessageFilter.latestFutureBlockHeight, M:Int:Slice_Iface, ghost:ndelivered, ghost:delivered, leanhelixterm.LeanHelixTerm.termInCommittee, ghost:schedStopped, @NEWTERM
 //@   ensures [O14.2.stale-sync-changes-nothing] blockheight.GetBlockHeight(receivedBlockWithProof.block) < old(lh.state.height) ==> lh.state.height == old(lh.state.height) && lh.state.view == old(lh.state.view)
 //@     | && lh.leanHelixTerm == old(lh.leanHelixTerm) && lastRoundHeight == old(lastRoundHeight) && ndelivered == old(ndelivered)
 //@   ensures [O14.4.height-never-moves-back] lh.state.height >= old(lh.state.height)
@@ -134,11 +140,14 @@ package leanhelix
 //@   props C12 C13 C14 C16 C19
 //@   safety iface
 //@   requires ctx != nil && lh.state != nil && lh.filter != nil && lh.filter.state == lh.state && lh.filter.futureCache != nil && lh.state.Contexts != nil
+//@   requires [A-NONNIL.the-configured-spi-objects-are-present] lh.config != nil && lh.config.KeyManager != nil && lh.config.BlockUtils != nil && lh.config.Membership != nil && lh.electionTrigger != nil
+//@   requires [A-KM-SIGN] SignsAs(lh.config.KeyManager, lh.config.Membership.MyMemberId())
 //@   requires lastRoundHeight <= lh.state.height && lastCommitHeight <= lh.state.height && ndelivered >= 0
 //@   requires [filter.cache] forall k int, i int :: has(lh.filter.futureCache, k) && 0 <= i && i < len(lh.filter.futureCache[k]) ==> lh.filter.futureCache[k][i].BlockHeight() == k && lh.filter.futureCache[k][i].InstanceId() == lh.filter.instanceId && lh.filter.futureCache[k][i].SenderMemberId() != lh.filter.myMemberId
-//@   modifies state.State.height, state.State.view, leanhelix.WorkerLoop.leanHelixTerm, M:S_state_HeightView:Int, ghost:lastRoundHeight, ghost:lastCommitHeight, rawmessagesfilter.RawMessageFilter.consensusMessagesHandler, rawmessagesfilter.RawMessageFilter.latestFutureBlockHeight, M:Int:Slice_Iface, ghost:ndelivered, ghost:delivered, leanhelixterm.LeanHelixTerm.termInCommittee, ghost:schedStopped
+//@   modifies state.State.height, state.State.view, leanhelix.WorkerLoop.leanHelixTerm, M:S_state_HeightView:Int, ghost:lastRoundHeight, ghost:lastCommitHeight, rawmessagesfilter.RawMessageFilter.consensusMessagesHandler, rawmessagesfilter.RawMessageFilter.latestFutureBlockHeight, M:Int:Slice_Iface, ghost:ndelivered, ghost:delivered, leanhelixterm.LeanHelixTerm.termInCommittee, ghost:schedStopped, @NEWTERM
 //@   loop for
 //@     invariant [frame] lh.state == old(lh.state) && lh.filter == old(lh.filter) && lh.filter.state == lh.state && lh.filter.futureCache == old(lh.filter.futureCache) && lh.state.Contexts == old(lh.state.Contexts)
+//@     invariant [config-frame] lh.config == old(lh.config) && lh.config.KeyManager == old(lh.config.KeyManager) && lh.config.BlockUtils == old(lh.config.BlockUtils) && lh.config.Membership == old(lh.config.Membership) && lh.electionTrigger == old(lh.electionTrigger)
 //@     invariant [O17.the-installed-term-is-the-term-of-the-current-height] (lh.filter.consensusMessagesHandler != nil ==> TermHeightOf(dyn(lh.filter.consensusMessagesHandler, *leanhelixterm.LeanHelixTerm)) == lh.state.height)
 //@     invariant [O13.heights-stay-ordered] lastRoundHeight <= lh.state.height && lastCommitHeight <= lh.state.height && ndelivered >= 0 && lh.state.height >= old(lh.state.height)
 //@     invariant [filter.cache] forall k int, i int :: has(lh.filter.futureCache, k) && 0 <= i && i < len(lh.filter.futureCache[k]) ==> lh.filter.futureCache[k][i].BlockHeight() == k && lh.filter.futureCache[k][i].InstanceId() == lh.filter.instanceId && lh.filter.futureCache[k][i].SenderMemberId() != lh.filter.myMemberId
